@@ -115,7 +115,7 @@ func (d *Driver) buildVariant(v Variant) (string, error) {
 	if v.Name == "" || len(v.BuildFlags) == 0 {
 		return os.Executable()
 	}
-	out := filepath.Join(d.Root, "bin", "vmon-"+v.Name)
+	out := filepath.Join(d.Root, "bin", "vmon-"+v.Name+os.Getenv("VERIF_INSTANCE"))
 	args := []string{"build", "-tags", "verif"}
 	if mf := os.Getenv("VERIF_MODFILE"); mf != "" {
 		args = append(args, "-modfile="+mf)
@@ -271,7 +271,7 @@ func (d *Driver) runShard(bin string, v Variant, shard, nshards int, timeout tim
 		spec := ReplaySpec{Property: d.Prop.ID, Tier: d.Tier, Seed: d.Seed, Variant: v.Name, Stream: stream, Index: idx,
 			Monitor: "alive", Class: class, Detail: "worker process died while running this case: " + stderrHead}
 		b, _ := json.MarshalIndent(spec, "", " ")
-		dir := filepath.Join(d.Root, "replays", d.Prop.ID)
+		dir := filepath.Join(ReplayRoot(d.Root), d.Prop.ID)
 		os.MkdirAll(dir, 0o755)
 		path := filepath.Join(dir, fmt.Sprintf("death-%s-%d-%d.json", sanitize(stream), idx, d.Seed))
 		os.WriteFile(path, b, 0o644)
@@ -346,7 +346,7 @@ func (d *Driver) merge(r *ShardResult) {
 	for k, v := range r.Digests {
 		key := k
 		if old, ok := a.Digests[key]; ok && old != v {
-			dir := filepath.Join(d.Root, "replays", d.Prop.ID)
+			dir := filepath.Join(ReplayRoot(d.Root), d.Prop.ID)
 			os.MkdirAll(dir, 0o755)
 			rp := filepath.Join(dir, fmt.Sprintf("cross-process-%s.txt", sanitize(k)))
 			os.WriteFile(rp, []byte(fmt.Sprintf("property %s: result digest of %s differs between worker processes\n  %s\n  %s\nre-run: ./check %s %s (VERIF_SEED=%d)\n", d.Prop.ID, k, old, v, d.Prop.ID, d.Tier, d.Seed)), 0o644)
@@ -375,7 +375,7 @@ func DriverMain(root string, p *Property, tier string, seed uint64) int {
 	os.MkdirAll(workDir(root, p.ID), 0o755)
 	os.MkdirAll(evidenceDir(root), 0o755)
 	os.Remove(filepath.Join(evidenceDir(root), p.ID+".json"))
-	os.RemoveAll(filepath.Join(root, "replays", p.ID))
+	os.RemoveAll(filepath.Join(ReplayRoot(root), p.ID))
 
 	ncpu := runtime.NumCPU()
 	if ncpu > 16 {
